@@ -30,6 +30,9 @@ CLS = "ParserX86ATT"
 
 
 def run(ctx):
+    C.require_locals(ctx, ctx.func('ParserX86ATT.process_memory_address'), ['memory_address', 'offset', 'base', 'index', 'scale', 'baseOp', 'indexOp'])
+    C.require_locals(ctx, ctx.func('ParserX86ATT.parse_line'), ['result'])
+    C.require_locals(ctx, ctx.func('ParserX86ATT.parse_instruction'), ['result', 'operands'])
     gr = Grammar(ctx.repo, CLS)
     ctx.touch(gr.func)
     ctx.extra["grammar_variables"] = len(gr.order)
